@@ -63,9 +63,32 @@ class _Canon(ast.NodeTransformer):
             return ast.copy_location(ast.Constant(value=None), node)
         return node
 
+    def visit_If(self, node):
+        self.generic_visit(node)
+        # `if not c: B else: A`  ->  `if c: A else: B`   (only plain if/else)
+        if isinstance(node.test, ast.UnaryOp) and isinstance(node.test.op, ast.Not) and node.orelse \
+                and not (len(node.orelse) == 1 and isinstance(node.orelse[0], ast.If)):
+            node.test = node.test.operand
+            node.body, node.orelse = node.orelse, node.body
+        return node
+
+    def visit_IfExp(self, node):
+        self.generic_visit(node)
+        if isinstance(node.test, ast.UnaryOp) and isinstance(node.test.op, ast.Not):
+            node.test = node.test.operand
+            node.body, node.orelse = node.orelse, node.body
+        return node
+
 
 def canon(node):
     n = _Canon().visit(copy.deepcopy(node))
+    ast.fix_missing_locations(n)
+    return n
+
+
+def canon_inplace(tree):
+    """Canonicalise a whole module tree in place (front-end pass)."""
+    n = _Canon().visit(tree)
     ast.fix_missing_locations(n)
     return n
 
@@ -157,3 +180,16 @@ def find(pat, root, binds=None):
         if b is not None:
             out.append((n, b))
     return out
+
+
+def C(text):
+    """Canonical text of a literal source pattern (rules compare against the
+    canonicalised trees the front end produces)."""
+    t = ast.parse(text).body[0]
+    if isinstance(t, ast.Expr):
+        t = t.value
+    return u(canon(t))
+
+
+def CS(*texts):
+    return tuple(C(t) for t in texts)
